@@ -59,6 +59,13 @@ def lib_ctx(kem, aead, mode, recv_key, send_key, psk, psk_id, info, enc=None):
         kw["psk"] = (psk_id, psk)
     if info:
         kw["info"] = info
+    if enc is not None and (len(info) + len(psk_id)) % 2:
+        # the RFC 9180 code point given as a plain integer (what a caller holding a wire value has): accepted by the library like the enum
+        # member; if a version refuses plain integers that is its right, and the enum member is used instead
+        try:
+            return HPKE.new(**dict(kw, aead_id=int(aead)))
+        except (TypeError, ValueError):
+            pass
     return HPKE.new(**kw)
 
 
